@@ -34,9 +34,24 @@ func runC30(c *core.Ctx) {
 		return
 	}
 	// S1: loop completeness for every persister.Remove call
+	// the loop may live in a helper method that Remove calls on every path that reports success
+	top := fn
+	if len(callsMatching(fn, "storage", "Persister", "Remove")) == 0 {
+		for _, in := range core.CallsIn(top, func(_ ssa.Instruction, cc *ssa.CallCommon) bool {
+			h := cc.StaticCallee()
+			return h != nil && h.Blocks != nil && h.Pkg == top.Pkg && len(callsMatching(h, "storage", "Persister", "Remove")) > 0
+		}) {
+			hc := in
+			esc, _ := core.PathQ{Fn: top, Via: func(x ssa.Instruction) bool { return x == hc }, Target: core.SuccessReturn}.Escape()
+			if esc == nil {
+				fn = core.CallOf(in).StaticCallee()
+				c.Analysed(fname(fn))
+			}
+		}
+	}
 	calls := callsMatching(fn, "storage", "Persister", "Remove")
 	for i, in := range calls {
-		name := fmt.Sprintf("%s/persister.Remove#%d", fname(fn), i)
+		name := fmt.Sprintf("%s/persister.Remove#%d", fname(top), i)
 		l := core.InnermostLoop(fn, in.Block())
 		if l == nil {
 			c.Fail("C30/remove-in-all-active-persisters", name, in.Pos(), "persister.Remove is not called inside a loop over the active persisters")
@@ -79,11 +94,11 @@ func runC30(c *core.Ctx) {
 	c.Floor("C30/remove-in-all-active-persisters", 1)
 
 	// S2: the cache entry is removed on every path to a return
-	q := core.PathQ{Fn: fn,
+	q := core.PathQ{Fn: top,
 		Via:    func(in ssa.Instruction) bool { return core.IsCall(in, "storage", "Cacher", "Remove") },
 		Target: core.AnyReturn}
 	esc, path := q.Escape()
-	c.Check(esc == nil, "C30/cache-entry-removed", fname(fn), fn.Pos(),
+	c.Check(esc == nil, "C30/cache-entry-removed", fname(top), top.Pos(),
 		"every path to a return passes cacher.Remove(key)",
 		"a return is reachable without cacher.Remove: "+c.P.PathString(path))
 	c.Sites += len(calls) + 1
